@@ -58,7 +58,7 @@ func genChallenge(r *core.Rand) string {
 		}
 		return string(b)
 	default:
-		return core.Choice(r, []string{"0", "00000000", "99999999", "12 34", "a|b", "x;y", "[1]"})
+		return core.Choice(r, []string{"0", "00000000", "99999999", "12 34", "a|b", "x;y", "[1]", "2375352>", "a>b>", ">", "12345678]", ";PQ: 1", "F> 00"})
 	}
 }
 
@@ -82,7 +82,7 @@ func genC16(tier string, r *core.Rand) C16Plan {
 	}
 	pp.Peer.Challenge = genChallenge(r)
 	pp.Aux = nil
-	auxPool := []string{"LA1B", "N0AUX-3", "SK0MK", "W7AUX", "DL0XYZ-11"}
+	auxPool := []string{"LA1B", "N0AUX-3", "SK0MK", "W7AUX", "DL0XYZ-11", "shelter7@example.org", "Ops.Desk@Example.NET", "club@winlink.example"}
 	core.Shuffle(r, auxPool)
 	for i, n := 0, r.Pick(3, 3, 2, 1); i < n; i++ {
 		pp.Aux = append(pp.Aux, auxPool[i])
@@ -174,7 +174,7 @@ func execC16(t *testing.T, prop string, raw json.RawMessage, trace bool) core.Ou
 			var wantFW []string
 			wantFW = append(wantFW, primary)
 			for _, a := range p.Aux {
-				addr := strings.ToUpper(a)
+				addr := wireAddr(a)
 				if pw := p.Passwords[a]; pw != "" && !errFor[a] {
 					wantFW = append(wantFW, addr+"|"+b2f.SecureResponse(ch, pw))
 					sim.Probe("aux-with-password")
@@ -203,4 +203,16 @@ func execC16(t *testing.T, prop string, raw json.RawMessage, trace bool) core.Ou
 		out.Violate(prop, "harness", "goroutines-left-blocked", "goroutines were still blocked when the run ended")
 	}
 	return out
+}
+
+// wireAddr is how an auxiliary address appears in ;FW: a call sign is upper
+// case; anything with a mail domain other than winlink.org goes out as given.
+func wireAddr(a string) string {
+	if i := strings.IndexByte(a, '@'); i >= 0 {
+		if strings.EqualFold(a[i+1:], "winlink.org") {
+			return strings.ToUpper(a[:i])
+		}
+		return a
+	}
+	return strings.ToUpper(a)
 }
